@@ -5,7 +5,7 @@
 From Coq Require Import List String Bool Permutation.
 Import ListNotations.
 From DI Require Import Syntax Tokens Bounds Param Subs Superset Substitute Spec RustSem Group Search Gen GenMain Validate IMap Hygiene Dispatch Examples ExamplesGroup ExamplesF16.
-From DI.proofs Require Import Basics SupersetSound SupersetExact SupersetComplete SupersetWf SubstituteProofs SubstituteSpec BoundsProofs DispatchProofs GroupProofs SearchProofs SearchFlat GenProofs GenMainProofs ParamProofs ParamAlpha RustSemProofs ValidateProofs IMapProofs HygieneProofs.
+From DI.proofs Require Import Basics SupersetSound SupersetExact SupersetComplete SupersetWf SubstituteProofs SubstituteSpec BoundsProofs DispatchProofs GroupProofs SearchProofs SearchFlat FlatSemantics GenProofs GenMainProofs ParamProofs ParamAlpha RustSemProofs ValidateProofs IMapProofs HygieneProofs.
 
 (* ===================================================================================== *)
 (* C09 -- header generalisation is exact first-order matching                             *)
@@ -208,6 +208,46 @@ Theorem C02_no_narrowing : forall (Q V : Type) keyvals (members : list (member Q
   forall m q, In m members -> m_applies Q V m q = true -> In m (selected Q V keyvals members q).
 Proof. exact no_narrowing. Qed.
 Print Assumptions C02_no_narrowing.
+
+(* the link from the syntactic side to the semantic grouping invariant, for a flat family (n
+   blocks with one header whose only bound is the key bound B: Tr<A = p_i>): with the key value
+   <B as Tr>::A at the query and "p_i instantiated at the query generalises that value" as the
+   row test, the invariant holds for RustSem.applies, hence coverage is exact *)
+Theorem C02_flat_grouping_invariant : forall W Hd B TR a n blk T p,
+  (forall i, i < n -> block_header (blk i) = Hd) ->
+  (forall i, i < n -> block_bounds (blk i) = [{| b_ty := B; b_maybe := false; b_path := T i |}]) ->
+  (forall i, i < n -> trait_ref (T i) = TR) ->
+  (forall i, i < n -> path_bindings (T i) = [(a, p i)]) ->
+  (forall rho, is_sized_path (apply rho TR) = false) ->
+  grouping_invariant term term (keyvals W Hd B TR a) (map (member_of W Hd blk p) (seq 0 n)).
+Proof. exact flat_grouping_invariant. Qed.
+Print Assumptions C02_flat_grouping_invariant.
+
+Theorem C02_flat_exact_coverage : forall W Hd B TR a n blk T p,
+  (forall i, i < n -> block_header (blk i) = Hd) ->
+  (forall i, i < n -> block_bounds (blk i) = [{| b_ty := B; b_maybe := false; b_path := T i |}]) ->
+  (forall i, i < n -> trait_ref (T i) = TR) ->
+  (forall i, i < n -> path_bindings (T i) = [(a, p i)]) ->
+  (forall rho, is_sized_path (apply rho TR) = false) ->
+  forall q, main_applies term term (keyvals W Hd B TR a) (map (member_of W Hd blk p) (seq 0 n)) q = true <->
+            exists i, i < n /\ applies W (blk i) q = true.
+Proof. exact flat_exact_coverage. Qed.
+Print Assumptions C02_flat_exact_coverage.
+
+(* the hypotheses are met by the two (T, U) blocks of the example invocation *)
+Example C02_flat_nonvacuous :
+  let b0 := nth 0 ex_blocks (Node (K "" "") []) in
+  let b2 := nth 2 ex_blocks (Node (K "" "") []) in
+  block_header b0 = block_header b2 /\
+  match block_bounds b0, block_bounds b2 with
+  | [x0], [x2] => term_eqb (b_ty x0) (b_ty x2) && negb (b_maybe x0) && negb (b_maybe x2) &&
+                  term_eqb (trait_ref (b_path x0)) (trait_ref (b_path x2)) &&
+                  negb (is_sized_path (trait_ref (b_path x0))) &&
+                  Nat.eqb (List.length (path_bindings (b_path x0))) 1 && Nat.eqb (List.length (path_bindings (b_path x2))) 1
+  | _, _ => false
+  end = true.
+Proof. vm_compute. split; reflexivity. Qed.
+Print Assumptions C02_flat_nonvacuous.
 
 (* C04: a query satisfying two different members makes the helper impls incoherent *)
 Theorem C04_overlap_incoherent : forall (Q V : Type) keyvals (members : list (member Q V)),
